@@ -376,6 +376,8 @@ def analyse_wedge(ctx, mod, short):
 
 
 def run(ctx):
+    from xfabsa import numeric as _N
+    _N.alias_rule(ctx, 'C09', ['xfab/tools.py', 'xfab/laue.py'])
     ctx.rule("root", "the returned angles make the x-row of the module's own rotation matrix times g equal -g.g")
     ctx.rule("count", "none for a negative discriminant, two distinct otherwise; the test is that discriminant")
     ctx.rule("eta", "eta from the y,z rows of the module's own builder at the solver's omega, tilts and units")
